@@ -48,8 +48,15 @@ func genC10(tier string, seed uint64, emit func(string)) {
 			emit("ENCH " + inits[r.intn(len(inits))] + " " + joinSp(ops))
 		}
 	}
-	// tokens with the no-measurements flag, decoded then re-encoded
-	genC04("quick", seed, func(line string) {})
+	// profile 1 with BOTH the component list and the no-measurements flag (any flag value): not valid, nothing may be emitted
+	for i := 0; i < n/10; i++ {
+		c := validClaims(1, r)
+		if c[tSwc] == "_" || c[tSwc] == "[]" {
+			continue
+		}
+		c[tNosw] = []string{"0", "1", "2", "18446744073709551615"}[r.intn(4)]
+		emit("GATE " + c.String())
+	}
 }
 
 func joinSp(l []string) string {
@@ -67,9 +74,9 @@ func joinSp(l []string) string {
 // invalid ones (encode / decode / re-encode)
 func genC09(tier string, seed uint64, emit func(string)) {
 	r := &rng{s: seed}
-	n := 4000
+	n := 2000
 	if tier == "thorough" {
-		n = 150000
+		n = 100000
 	}
 	for kind := 1; kind <= 2; kind++ {
 		for i := 0; i < n; i++ {
